@@ -39,8 +39,9 @@ def join(a, b):
 def range_bound(perm, rng):
     """For `lo..=hi` over keys ordered by `perm`: the set of roles fixed by the range, or None if the bounds do not cover
     every key with that prefix.  Rule: a leading run of positions with lo == hi == that position's own role; then lo must be
-    ZERO everywhere, and walking hi: MAX at a term position ends the walk successfully (term indexes are < MAX), MAX at
-    the graph position continues, anything else fails."""
+    ZERO and hi must be MAX at every remaining position.  (An earlier version stopped at the first free *term* position,
+    relying on SimpleTermIndex never issuing MAX to a term; GenericLightDataset/GenericFastDataset are generic over any
+    TermIndex, whose contract reserves nothing, and `[g,MAX,MAX,ZERO]` lost quads with such an index — fixed in 70ac9a3.)"""
     if not rng or rng[0] != "tup" or len(rng[1]) != 2:
         return None
     lo, hi = rng[1]
@@ -50,15 +51,8 @@ def range_bound(perm, rng):
     while k < len(perm) and lo[1][k] == ("r", perm[k]) and hi[1][k] == ("r", perm[k]):
         k += 1
     for i in range(k, len(perm)):
-        if lo[1][i] != ("c", "ZERO"):
+        if lo[1][i] != ("c", "ZERO") or hi[1][i] != ("c", "MAX"):
             return None
-    i = k
-    while i < len(perm):
-        if hi[1][i] != ("c", "MAX"):
-            return None
-        if perm[i] != "g":
-            break
-        i += 1
     return set(perm[:k])
 
 
